@@ -50,6 +50,13 @@ FORMS = [
     ("self_mem_delay", "fn f(x){ self * 0.5 + mem(x) + delay(4, x, 2.0) }\nfn dsp(){ f(now) }\n"),
     ("global_let", "let g = 3.0\nfn dsp(){ g * 2.0 }\n"),
     ("string", "fn dsp(){ let s = \"abc def\"\n 1.0 }\n"),
+    # tokens that span lines: a string literal with a line break at several indentation levels, a block comment over lines
+    ("string_multiline_toplevel", "let s = \"ab\ncd\"\nfn dsp(){ 1.0 }\n"),
+    ("string_multiline_in_block", "fn dsp(){\n  let s = \"ab\n cd\nef\"\n  1.0\n}\n"),
+    ("string_multiline_nested", "fn dsp(){\n  let r = { let s = \"ab\n\ncd\"\n 2.0 }\n  r\n}\n"),
+    ("string_multiline_argument", "fn f(s, x){ x }\nfn dsp(){\n  f(\"ab\ncd\", 1.0)\n}\n"),
+    ("string_multiline_tuple", "fn dsp(){\n  let (a, b) = (\"x\ny\", 2.0)\n  b\n}\n"),
+    ("block_comment_multiline_in_block", "fn dsp(){\n  /* one\n     two\n three */\n  1.0\n}\n"),
     ("match_int", "fn dsp(){ match (now > 1.0) { 0 => 10.0, 1 => 20.0, _ => 30.0 } }\n"),
     ("type_decl", "type Shape = Circle(float) | Square(float)\nfn dsp(){ 1.0 }\n"),
     ("type_alias", "type alias Pair = (float, float)\nfn dsp(){ 1.0 }\n"),
